@@ -5,6 +5,7 @@ package checks
 import (
 	"fmt"
 	"math/rand"
+	"os"
 	"path/filepath"
 	"reflect"
 	"strings"
@@ -67,6 +68,10 @@ func c18Sig(text string, lines int) string {
 }
 
 func C18(c *core.Ctx) {
+	for _, k := range []string{"A", "B", "E", "U", "K1"} { // the names the generated files refer to, with values no layer of the model has
+		os.Setenv(k, "from-process-environment-"+k)
+		defer os.Unsetenv(k)
+	}
 	c.Assumption("TLC 1.8.0; spec/text/Dotenv.tla written from the documented dotenv grammar; replay through dotenv.ParseWithLookup and UnmarshalWithLookup")
 	type run struct{ name, cfg string }
 	mk := func(lines int, first, second bool) string {
@@ -127,6 +132,32 @@ func C18(c *core.Ctx) {
 				// the two entry points agree
 				if m2, err2 := dotenv.UnmarshalWithLookup(text, func(k string) (string, bool) { v, ok := c18Lookup[k]; return v, ok }); err2 != nil || !reflect.DeepEqual(m2, got) {
 					fail = fmt.Sprintf("UnmarshalWithLookup gives %q, %v but ParseWithLookup %q", m2, err2, got)
+				}
+			}
+			// the entry points that take no lookup: the file's own lines are all there is, whatever the process environment holds
+			if exp0 := asMap(vec["exp0"]); fail == "" && exp0 != nil && n%3 == 0 {
+				want0 := map[string]string{}
+				for _, e := range asList(exp0["kv"]) {
+					want0[asStr(asMap(e)["k"])] = asStr(asMap(e)["v"])
+				}
+				m0, err0 := func() (m map[string]string, err error) {
+					defer func() {
+						if r := recover(); r != nil {
+							err = fmt.Errorf("panic: %v", r)
+						}
+					}()
+					if n%2 == 0 {
+						return dotenv.Parse(strings.NewReader(text))
+					}
+					return dotenv.UnmarshalWithLookup(text, nil)
+				}()
+				switch {
+				case err0 != nil && strings.HasPrefix(err0.Error(), "panic"):
+					fail = "without a lookup function: " + err0.Error()
+				case asBool(exp0["ok"]) && (err0 != nil || !reflect.DeepEqual(m0, want0)):
+					fail = fmt.Sprintf("without a lookup function (Parse / UnmarshalWithLookup(nil)) parsed as %q, %v; the file's own lines define %q", m0, err0, want0)
+				case !asBool(exp0["ok"]) && err0 == nil:
+					fail = fmt.Sprintf("without a lookup function parsed as %q; the grammar defines an error (required variable missing)", m0)
 				}
 			}
 			if fail != "" {
